@@ -153,8 +153,21 @@ def run(prog, rep, tier):
         ok = ok and (any(is_tuple2(cond) and pol for cond, pol in c.path) or want2 <= resolve(conj(c.path)))
         why = "low=%s high=%s size=%s" % tuple(fmt(b.get(k, ("const", None))) for k in ("low", "high", "size"))
         sizes_t = c.result
-    rep.check("SIZES.range", ok, fwhere(f, ints[0].node if ints else None), "sizes = rng.integers(size[0], size[1] + 1, K): inclusive range, one per intervention",
-              "range sizes deviate: " + why)
+    def plain(t_):
+        # an expression over the arguments themselves (size[0], size[1] + 1, K, p ...): a deviation in such a term is a decided one; a term that went
+        # through branches, helpers' records or loops is a form the rules do not read
+        return t_ is None or not any(isinstance(x, tuple) and x and x[0] in ("phi", "after", "mu", "comp", "call", "method", "join", "store", "attr") for x in walk(t_))
+    sizes_unread = False
+    if ok:
+        rep.ok("SIZES.range", fwhere(f, ints[0].node), "sizes = rng.integers(size[0], size[1] + 1, K): inclusive range, one per intervention")
+    elif len(ints) == 1 and ints[0].recv == RNG and all(plain(b.get(k_)) for k_ in ("low", "high", "size")) and \
+            (any(is_tuple2(cond) and pol for cond, pol in ints[0].path) or want2 <= resolve(conj(ints[0].path))):
+        rep.bad("SIZES.range", fwhere(f, ints[0].node), "range sizes deviate: " + why)
+    elif not ints and not any(c.callkind == "method" and c.target in (".choice", ".random", ".uniform") and not c.loops for c in S.select("call", qname=Q)):
+        rep.bad("SIZES.range", fwhere(f), "a (lo, hi) request draws no sizes: no rng.integers call")
+    else:
+        sizes_unread = True
+        rep.unk("SIZES.range", fwhere(f, ints[0].node if ints else None), "how the sizes are drawn for a (lo, hi) request is not in a form these rules read (%s)" % why)
     # CHOICE / COUNT / POOL
     loops = sorted([(k, v) for k, v in S.loopinfo.items() if v["func"] == Q], key=lambda kv: kv[0][1])
     if len(draws) == 2 and len(loops) < 2 and any(isinstance(x, tuple) and x[:1] == ("comp",) for x in walk(T(summ.ret))):
@@ -196,6 +209,9 @@ def run(prog, rep, tier):
             # disjointness / size argument these rules do not read
             rep.unk("COUNT.K", w, "this loop draws nothing itself (targets drawn in one go and handed out afterwards?): idiom not read")
             continue
+        if not okK and (sizes_unread or not plain(it)):
+            rep.unk("COUNT.K", w, "the loop runs over %s: whether that is K rounds is not read" % fmt(it)[:80])
+            continue
         rep.check("COUNT.K", okK and len(apps) == 1 and len(mine) == 1 and len(apps[0].loops) == len(mine[0].loops) and uncond, w,
                   "range(K) iterations, one unconditional append each", "the loop does not append exactly one intervention in each of the K rounds (%s)" % (
                       "the append is conditional: %s" % sorted(pred_fmt(p_) for p_ in resolve(conj(apps[0].path)) - resolve(conj(lf[0].path))) if apps and lf and not uncond else "loop / append shape"))
@@ -209,7 +225,10 @@ def run(prog, rep, tier):
         sz_ok = sz is not None and ((sz[0] == "sub" and sz[2] in counter and is_sizes(sz[1])) or (zipped is not None and sz == ("elem", zipped)))
         rep.check("CHOICE.distinct", d.recv == RNG and b.get("replace") == ("const", False) and not extra, fwhere(f, d.node),
                   "rng.choice(..., replace=False): distinct variables within an intervention", "targets within an intervention may repeat (replace is not False) or another generator is used")
-        rep.check("CHOICE.size", sz_ok, fwhere(f, d.node), "size = sizes[i] with sizes = range draw | [size] * K", "intervention size is %s" % fmt(sz)[:100] if sz else "no size")
+        if not sz_ok and sz is not None and (sizes_unread or not plain(sz)) and not (sz[0] == "phi" and tuple_cond(sz[1])):
+            rep.unk("CHOICE.size", fwhere(f, d.node), "intervention size is %s: not read" % fmt(sz)[:100])
+        else:
+            rep.check("CHOICE.size", sz_ok, fwhere(f, d.node), "size = sizes[i] with sizes = range draw | [size] * K", "intervention size is %s" % fmt(sz)[:100] if sz else "no size")
         appended = apps[0].args[0]
         rep.check("CHOICE.recorded", strip_list(appended) == d.result, fwhere(f, apps[0].node), "the drawn targets are what is appended", "the appended value is not the draw")
         pool = strip_list(b.get("a"))
